@@ -698,6 +698,8 @@ type wr struct {
 	merge bool
 	val   Val
 	key   bool
+	via   int  // 0 typed setter, 1 Row.SetAny, 2 Row.SetMany
+	tiny  bool // hand a one-byte Go type over where the value fits
 }
 
 func (x wr) Coq() string {
@@ -719,6 +721,10 @@ func (x wr) apply(r column.Row) {
 		r.SetKey(string(x.val.B))
 	case x.merge:
 		x.col.Merge(r, x.val)
+	case x.via == 1:
+		r.SetAny(x.col.Name, x.col.AnyValue(x.val, x.tiny))
+	case x.via == 2:
+		r.SetMany(map[string]any{x.col.Name: x.col.AnyValue(x.val, x.tiny)})
 	default:
 		x.col.Set(r, x.val)
 	}
@@ -792,11 +798,22 @@ func (g *txnGen) genWrites(off int64, n int, isInsert bool) []wr {
 			}
 		}
 		v := col.RandVal(w.rng, w.prof.Long)
-		out = append(out, wr{col: col, merge: merge, val: v})
+		x := wr{col: col, merge: merge, val: v}
 		kind := "put"
 		if merge {
 			kind = "merge"
+		} else if w.rng.Chance(25) {
+			// the untyped write paths; int / uint columns also take narrower integers
+			x.via = 1 + w.rng.Intn(2)
+			kind = []string{"", "setany", "setmany"}[x.via]
+			if (col.K == KInt || col.K == KUint) && w.rng.Chance(60) {
+				nk := map[Kind][]Kind{KInt: {KInt16, KInt32}, KUint: {KUint16, KUint32}}[col.K][w.rng.Intn(2)]
+				x.val = Col{K: nk}.RandVal(w.rng, false)
+				x.tiny = w.rng.Bool()
+				kind += ".narrow"
+			}
 		}
+		out = append(out, x)
 		w.stats.WritesByKind[col.K.String()+"."+kind]++
 	}
 	return out
